@@ -421,6 +421,13 @@ def run_shard(spec, ctx):
                 src = b''.join(b'local %s=%d\n%s+=other_%d\n' % (n, k, n, k) for k, n in enumerate(names))
                 ctx.feature('keepfile_names_by_first_byte', len(hs))
                 run_one(ctx, src, None, 'keep_file', sorted(set(names)), workdir, cli=grp % 60 == 0)
+            # functions whose names begin with an underscore (and are no PICO-8 callbacks), referenced before the statement that
+            # defines them, as a game loop at the top of a cart does with the helpers below it
+            src = (b'function _update()\n _tick()\n _move(p)\n local h=_helper\n t._hook=_hook\nend\nfunction _tick() n+=1 end\nfunction _move(o) o.x+=1 end\n'
+                   b'local function _helper() return _tick end\nfunction _hook() end\nfunction t._cb() end\n_tick() _move(q)\n')
+            for config in ('default', 'keep_file'):
+                ctx.feature('underscore_functions_used_before_defined')
+                run_one(ctx, src, None, config, [b'q', b'n'], workdir, cli=config == 'default')
             # listed names of every length from 1 to 48 characters (the longest reserved name has 15), plain and with a glyph
             for variant in (b'', b'\x8e'):
                 names = [b'w', b'w2'] + [(b'q%d' % n + variant).ljust(n, b'_') for n in range(3, 49)]
